@@ -109,7 +109,7 @@ def rule_P2(ctx):
     ctx.check(okl and re.match(r'^self\.getObs\(\w+\)\.features$', d_col[0].name) is not None, 'C01.P2', f, 'the column is deleted in every observation',
               witness={'deleted from': d_col[0].name}, node=d_col[0].node, key='all-obs')
     # gap closing: for all remaining keys, columns above the removed one move down by exactly one
-    shift = [s for s in body if isinstance(s, ast.For) and any(isinstance(n, ast.AugAssign) for n in ast.walk(s))]
+    shift = [s for s in body if isinstance(s, ast.For) and any(isinstance(n, (ast.AugAssign, ast.Assign)) and 'analyticalFeaturesDico[' in unparse(n.target if isinstance(n, ast.AugAssign) else n.targets[0]) for n in ast.walk(s))]
     if len(shift) != 1:
         ctx.violation('C01.P2', f, 'after a deletion the larger column numbers are shifted down by one',
                       {'why': 'no shifting loop: the names registered after the removed one now point one column too far'}, node=f.node, key='no-shift')
